@@ -95,7 +95,10 @@ def checkEvent (T : Tab) (e : List String) : Option (Bool × String) :=
     -- the harness hands the source state to `transition_cost` when `transition` panicked; the destination is not read
     let k := showOI (cost? T s ⟨x, v⟩)
     pure (join s2 == m2 && c == k, s!"{m2} : {k}")
-  | ["rx" :: _, _, _, [_, _], [c], [r]] => some (r == c, c)
+  | ["rx" :: _, dst, m, [_, _], [c], [r]] => do
+    let dst ← st? dst; let m ← st? m; let c ← int? c
+    let want := toString (c + ((dst.el.earliest : Int) - (m.el.earliest : Int)))
+    pure (r == want, want)
   | ["rk" :: a, b, [o]] => do
     let a ← st? a; let b ← st? b
     let m := showOrd (rankCmp a b)
@@ -155,7 +158,7 @@ def phiEvent (T : Tab) (e : List String) : Option (String × String) :=
   | ["rx" :: _, dst, m, _, [c], [r]] =>
     match st? dst, st? m, int? c, int? r with
     | some dst, some m, some c, some r =>
-      if !validB T dst || !validB T m || dst.depth != m.depth || mergeClause T dst m c r then none
+      if !validB T dst || !validB T m || dst.depth != m.depth || (mergeClause T dst m c r && mergeOkAt T dst m c r) then none
       else some ("tsptw-merge", s!"`{showSt dst}` (value-to-go {showE (bestRemL T dst)}) merged into `{showSt m}` (value-to-go {showE (bestRemL T m)}): minus the earliest time plus the value-to-go decreases, merge does not over-approximate")
     | _, _, _, _ => none
   | ["pv" :: s, [v], decs] =>
